@@ -392,7 +392,7 @@ func c01Gen(g *fw.GenCtx) []fw.Case {
 	}
 	var seqs [][]int
 	var recMoves func(prefix []int)
-	maxMoves := g.Pick(3, 5)
+	maxMoves := g.Pick(3, 4)
 	recMoves = func(prefix []int) {
 		if len(prefix) > 0 {
 			seqs = append(seqs, append([]int{}, prefix...))
@@ -424,7 +424,7 @@ func c01Gen(g *fw.GenCtx) []fw.Case {
 		}
 	}
 	// random type-directed programs of length 5..9
-	n := g.Pick(2000, 50000)
+	n := g.Pick(2000, 20000)
 	for i := 0; i < n; i++ {
 		l := 5 + rng.Intn(5)
 		idx := []int{starts[rng.Intn(len(starts))]}
@@ -596,7 +596,7 @@ func c01Run(w *fw.Worker, env *c01Env, cc c01Case, _ gdbi.GraphDB) fw.Result {
 func init() {
 	fw.Register(&fw.Property{
 		ID:   "C01",
-		Rule: "programs over a 63-instance step alphabet: every sequence that starts with V/E up to length 3 (quick) / 4 (thorough), pruned below an ill-typed prefix, plus sequences with a non-start first step, plus 2000 / 50000 random type-directed programs of length 5-9; plus deep families (every sequence of 1-3 / 1-5 moves from out, in, both, outE, bothE after V() and V(a), with marks set at the start or after the first and after the last move, ending in path(), select, render of a mark or count) on the graphs with fan-out at every level; each well-typed program runs on 3-4 graphs drawn from a 10-graph hostile library (labels that are prefixes of one another, empty, single, self loop, parallel edges, dangling endpoints, isolated vertices, label=property name, nested data) and 20 / 500 seeded random graphs, compiled WITHOUT optimizers over a force-load decorator, and its canonical row multiset is compared with the reference interpreter; ill-typed programs must fail to compile. Non-trivial = an ill-typed program that was checked for rejection, or a well-typed one whose (untruncated) result is non-empty; distinct = distinct (program, graph list).",
+		Rule: "programs over a 63-instance step alphabet: every sequence that starts with V/E up to length 3 (quick) / 4 (thorough), pruned below an ill-typed prefix, plus sequences with a non-start first step, plus 2000 / 20000 random type-directed programs of length 5-9; plus deep families (every sequence of 1-3 / 1-4 moves from out, in, both, outE, bothE after V() and V(a), with marks set at the start or after the first and after the last move, ending in path(), select, render of a mark or count) on the graphs with fan-out at every level; each well-typed program runs on 3-4 graphs drawn from a 10-graph hostile library (labels that are prefixes of one another, empty, single, self loop, parallel edges, dangling endpoints, isolated vertices, label=property name, nested data) and 20 / 500 seeded random graphs, compiled WITHOUT optimizers over a force-load decorator, and its canonical row multiset is compared with the reference interpreter; ill-typed programs must fail to compile. Non-trivial = an ill-typed program that was checked for rejection, or a well-typed one whose (untruncated) result is non-empty; distinct = distinct (program, graph list).",
 		Assumptions: []string{
 			"where the docs are silent the model follows the literal fully-loaded engine of the pinned tree (DESIGN.md appendix A): V(ids) repeats, moves drop absent endpoints, hasKey counts a null-valued key as present, unwind of a non-list or empty list yields one row with the key set to null, unwind/select append to the path",
 			"not generated because unspecified: label lists on moves from an edge, path() after fields()/unwind(), _to/_from on vertices, nested or mixed include/exclude field lists, JSONPath features beyond dotted paths, -0",
